@@ -131,6 +131,7 @@ inductive Act
 inductive Res
   | bad | undisc
   | ok (labs : List LLabel) (ss : SS) (wins : Wins)
+  deriving DecidableEq, Repr
 
 def Res.prepend (l : List LLabel) : Res → Res
   | .ok labs ss w => .ok (l ++ labs) ss w
@@ -328,6 +329,12 @@ theorem Ok_append (trk ss wins e1 e2 R) (h : Ok trk ss wins e1 (fun ss1 w1 => Ok
   | ok l1 ss1 w1 =>
     simp only [h1, Res.andThen] at h ⊢
     cases h2 : absRun trk ss1 w1 e2 <;> simp_all [Res.prepend]
+
+theorem Ok_iff (trk ss wins es R) :
+    Ok trk ss wins es R ↔
+      absRun trk ss wins es ≠ .bad ∧ ∀ labs ss' wins', absRun trk ss wins es = .ok labs ss' wins' → R ss' wins' := by
+  unfold Ok
+  cases absRun trk ss wins es <;> simp
 
 theorem Ok_nil_iff (trk ss wins R) : Ok trk ss wins [] R ↔ R ss wins := by simp [Ok, absRun]
 
